@@ -11,6 +11,13 @@ PY = "/venv/bin/python"
 
 # property -> (technique, level text, level note, design ref)
 CLAIMED = {
+    "C10": ("TLA+ reference semantics of transpose/T/swapaxes/rollaxis/newaxis/squeeze/repeat/broadcast/broadcast_arrays (spec/Arrays.tla) "
+            "model-checked by TLC (coordinate-preservation invariants on every reachable program state) and every program replayed",
+            "TLC explores every program of 1-2 rearranging operations over the template arrays (0-3 dims quick, 0-4 thorough, distinct axis lengths, "
+            "singleton dims) with all permutations / axis pairs / insertion positions / broadcast targets, checking CoordPreserved, NoLoss, "
+            "TransposeInverse, SqueezeNewAxis as invariants; each step of each program is replayed in dimarray with dims given by name and by position.",
+            "Trusted: TLC, projection/concretisation, NumPy. The label of a newly introduced singleton dimension that is never repeated is left open.",
+            "5 (C10)"),
     "C02": ("TLA+ reference semantics of label and position slices (spec/Labels.tla LocSlice, PosSlice) enumerated exhaustively by TLC and replayed",
             "TLC enumerates every (axis, start, stop, step) combination within bounds (monotonic axes = all subsets of the universe in both directions incl. empty, shuffled, string, position slices; 1-d and embedded in 2-d), checks bounding-box / no-wrap theorems on the spec, and each expected selection is compared with the real library through every spelling.",
             "Trusted: TLC, projection/concretisation, NumPy. Bounds: axis length 0-3 quick / 0-5 thorough, bounds from one below to one above the universe, steps None,1,2,3,-1,-2.",
